@@ -87,6 +87,20 @@ Theorem c06_error_passthrough : forall c e n, fget n = true ->
 Proof. exact error_passthrough. Qed.
 Print Assumptions c06_error_passthrough.
 
+(* A read issued under an already cancelled context -- whether its key is cached or not -- returns the context
+   error, does not ask the database and changes nothing (sequential model); and in the concurrent LTS a call
+   whose context is cancelled never asks the database: none of its steps reads it, a step at the cache read
+   ends the call with the context error, and it never enters a query it was not already in. *)
+Theorem c06_cancelled_context_shields :
+  (forall c e n k, step c (e, n) (QueryCancelled k) = (e, n, RCtxErr)) /\
+  (forall place c e ns k, cstep place c (e, ns) (COp (QueryCancelled k)) = (e, ns, RCtxErr)) /\
+  (forall s s' t, CA.step (C18.Conc.Thr t) s = Some s' -> CA.t_cancel (CA.ts s t) = true ->
+     CA.dbq s' = CA.dbq s /\ CA.t_cancel (CA.ts s' t) = true /\
+     (forall f, pc_of s t = CA.RGet f -> pc_of s' t = CA.REnd f None /\ CA.trace s' = CA.trace s /\ CA.cache s' = CA.cache s) /\
+     (CA.querying (pc_of s' t) = true -> CA.querying (pc_of s t) = true)).
+Proof. split; [reflexivity|]. split; [reflexivity | exact cancelled_no_query]. Qed.
+Print Assumptions c06_cancelled_context_shields.
+
 (* Index gap. An index entry written by QueryRowIndex points to a primary entry written in the same call
    that expires exactly 5 s later (same draw), so as time passes the index entry dies first. *)
 Theorem c06_index_gap : forall c f1 f2 e n i pk x, gap c = 5 * sec ->
